@@ -33,6 +33,21 @@ MUST_BE_REFUSED = [
 ]
 
 
+_EQH = '(a == b) == (hs(&a) == hs(&b))'
+_EQC = '(a == b) == (a.cmp(&b) == Ordering::Equal) && a.partial_cmp(&b) == Some(a.cmp(&b))'
+STACKED_COHERENCE = [
+    ('#[::derive_ex::derive_ex(PartialEq)]\n#[::derive_ex::derive_ex(Hash)]', '#[eq(key = $ % 3)]', '', _EQH),
+    ('#[::derive_ex::derive_ex(Hash)]\n#[::derive_ex::derive_ex(PartialEq)]', '#[eq(key = $ % 3)]', '', _EQH),
+    ('#[derive_ex::derive_ex(Hash)]\n#[derive_ex::derive_ex(PartialEq, Eq)]', '#[eq(key = $ % 3)]', '', _EQH),
+    ('#[::derive_ex::derive_ex(Ord, PartialOrd)]\n#[::derive_ex::derive_ex(Eq, PartialEq)]', '#[ord(key = $ % 3)]', '', _EQC),
+    ('#[::derive_ex::derive_ex(Eq, PartialEq)]\n#[derive_ex(Hash)]\n#[derive_ex::derive_ex(Ord, PartialOrd)]', '#[ord(key = $ % 3)]',
+     'use ::derive_ex::derive_ex;', _EQC + ' && ' + _EQH),
+    ('#[derive_ex(PartialEq)]\n#[derive_ex(Hash)]', '#[eq(key = $ % 3)]', 'use ::derive_ex::derive_ex;', _EQH),
+    # KNOWN FINDING (known_findings.json): under a RENAMED import the macro cannot recognise its sibling lists
+    ('#[dx(PartialEq)]\n#[dx(Hash)]', '#[eq(key = $ % 3)]', 'use ::derive_ex::derive_ex as dx;', _EQH),
+]
+
+
 class C02(CmpProp):
     pid = 'C02'
     batch = 'c02'
@@ -187,6 +202,24 @@ class C02(CmpProp):
             else:
                 validated += 1
         l2.cleanup('c02lit')
+        # one request split over several attribute-macro invocations that share a helper attribute (`#[eq(key = ..)]` speaks
+        # for PartialEq AND Hash, `#[ord(key = ..)]` for all five): the impls must stay coherent however the lists are spelled
+        st = [l2.Module(8 * 10 ** 6 + 100 + k, '%s\npub struct X(%s pub u8);\n%s\npub fn run() { let (a, b) = (X(0), X(3)); println!("%d\\tr\\t{}", %s); }'
+                        % (heads, fattr, extra, 8 * 10 ** 6 + 100 + k, test), _Lit('%s struct X(%s u8);' % (heads.replace('\n', ' '), fattr)))
+              for k, (heads, fattr, extra, test) in enumerate(STACKED_COHERENCE)]
+        exe = l2.compile_batch('c02stack', st, prelude=G.PRELUDE + G.P_TYPE +
+                               'pub fn hs<T: Hash>(t: &T) -> String { let mut h = Rec(String::new()); t.hash(&mut h); h.0 }\n')
+        sobs = l2.run_exe(exe)[1] if exe else {}
+        for mo in st:
+            got = sobs.get(str(mo.cid))
+            if not mo.compiled or got != [('r', 'true')]:
+                failures.append(dict(**{'class': 'derived-impls-disagree', 'mode': 'stacked-lists'}, input=mo.meta.input_text(),
+                                     expected='coherent impls: ' + STACKED_COHERENCE[mo.cid - 8 * 10 ** 6 - 100][3],
+                                     observed=[d['message'] for d in mo.diags if d['level'] == 'error'][:3] or got))
+            else:
+                validated += 1
+        l2.cleanup('c02stack')
+        lits = lits + st
         return dict(evaluations=len(mods) + refused + len(lits), validated=validated + refused, programs=len(mods) + len(lits), pair_checks=checks,
                     refused_by_derive_ex=refused, failures=failures, samples=samples)
 
